@@ -323,7 +323,41 @@ class Engine:
 
         if name in EXC_PARENT:
             return Cls(name)
+        if self.module is not None and self.auto_inline:
+            c = self.module_constant(name)
+            if c is not None:
+                return c
         return None
+
+    def module_constant(self, name):
+        """a module-level name of the file under proof bound exactly once, at top level, to an immutable literal (str / int / bool / None / tuples of these),
+        never declared `global` in a function and never deleted: reading it yields that literal (so that naming a constant does not orphan a proof)"""
+        cache = self.__dict__.setdefault("_modconst", {})
+        if name in cache:
+            return cache[name]
+        tree = self.module.tree
+        stores = [n for n in ast.walk(tree) if isinstance(n, ast.Name) and n.id == name and isinstance(n.ctx, (ast.Store, ast.Del))]
+        glob = any(isinstance(n, (ast.Global, ast.Nonlocal)) and name in n.names for n in ast.walk(tree))
+        binds = [n for n in tree.body if isinstance(n, ast.Assign) and len(n.targets) == 1 and isinstance(n.targets[0], ast.Name) and n.targets[0].id == name]
+        binds += [n for n in tree.body if isinstance(n, ast.AnnAssign) and isinstance(n.target, ast.Name) and n.target.id == name and n.value is not None]
+        other = [n for n in ast.walk(tree) if isinstance(n, (ast.FunctionDef, ast.AsyncFunctionDef, ast.ClassDef)) and n.name == name and n in tree.body]
+        other += [a for n in ast.walk(tree) if isinstance(n, (ast.Import, ast.ImportFrom)) for a in n.names if (a.asname or a.name.split(".")[0]) == name]
+        val = None
+
+        def literal(n):
+            if isinstance(n, ast.Constant):
+                return isinstance(n.value, (str, int, bool, type(None))) and not isinstance(n.value, (bytes, float, complex))
+            if isinstance(n, ast.Tuple):
+                return all(literal(x) for x in n.elts)
+            return False
+
+        # a store inside a function body creates a local of that function (no `global` declaration): only module-level stores count
+        fn_local = {id(x) for f in ast.walk(tree) if isinstance(f, (ast.FunctionDef, ast.AsyncFunctionDef, ast.Lambda)) for x in ast.walk(f) if isinstance(x, ast.Name)}
+        top_stores = [n for n in stores if id(n) not in fn_local]
+        if len(binds) == 1 and len(top_stores) == 1 and not glob and not other and literal(binds[0].value):
+            (s_, val), = self.ev(binds[0].value, State())
+        cache[name] = val
+        return val
 
     def ev_Name(self, e, st):
         v = self.resolve_name(e.id, st)
